@@ -375,3 +375,45 @@ def DefaultCompactable(M: "NamespaceManager", x: "Val") -> "bool":
     return (is_str(x) or is_ident(x)) and (
         old(DefaultCompactableIn(M, TextOf(x)))
         or (M.parent is not None and old(DefaultCompactableIn(M.parent, TextOf(x)))))
+
+
+# ---------------------------------------------------------------------------------------------- construction
+@spec
+def NamespacesArgOK(namespaces: "Opt[Seq[Ns]]") -> "bool":
+    return namespaces is None or forall_in(the(namespaces), lambda n: NsOK(n) and n.prefix != "" and ":" not in n.prefix and n.prefix != "_")
+
+
+@contract("prov.model.NamespaceManager.add_namespaces", props=["C03", "C09", "C12"])
+def add_namespaces(self: "NamespaceManager", namespaces: "Opt[Seq[Ns]]") -> "none":
+    note("stated for a collection of Namespace objects (list/set); the dict {prefix: uri} form is converted to it "
+         "by the first statement")
+    requires("inv", NSM_Local(self))
+    requires("namespaces", NamespacesArgOK(namespaces))
+    modifies(self, "<dict>", "_namespaces", "_uri_map", "_rename_map", "_prefix_renamed_map")
+    invariant("L1", "inv", NSM_Local(self))
+    invariant("L1", "no-rebind", NoRebind(self))
+    invariant("L1", "default-kept", same(self._default, old(self._default)) and same(self.parent, old(self.parent)))
+    invariant("L1", "handed", implies(old(InvHanded(self)), InvHanded(self)))
+    ensures("inv", NSM_Local(self))
+    ensures("no-rebind", NoRebind(self))
+    ensures("handed-still-resolve", implies(old(InvHanded(self)), InvHanded(self)))
+
+
+@spec
+def UriRegistered(M: "NamespaceManager", u: "str") -> "bool":
+    # some prefix of M is bound to a namespace with this URI
+    return exists(lambda p: p in M and M[p].uri == u, "str")
+
+
+@contract("prov.model.NamespaceManager.__init__", props=["C03", "C09", "C12"])
+def NamespaceManager_init(self: "NamespaceManager", namespaces: "Opt[Seq[Ns]]" = None, default: "none" = None,
+                          parent: "Opt[NamespaceManager]" = None) -> "none":
+    note("verified for default=None, the only way the package constructs a manager (ProvBundle.__init__)")
+    requires("namespaces", NamespacesArgOK(namespaces))
+    modifies(self, "<dict>", "_namespaces", "_default", "parent", "_anon_id_count", "_uri_map", "_rename_map",
+             "_prefix_renamed_map", "_default_namespaces")
+    ghost_set(self, "handed", empty_set("QN"))
+    ensures("inv", NSM_Local(self))
+    ensures("parent", same(self.parent, parent))
+    ensures("no-default", self._default is None)
+    ensures("nothing-handed-out", InvHanded(self))
